@@ -1005,8 +1005,10 @@ def judge2(ctx, prog, name):
         b = traced_bytes(tr)
     want = bytes(exp.out)
     item, bkey, bw, bg = (None, None, None, None)
+    # in a two-pass program the first unit is the address of the label behind the last byte: it differs whenever anything differs
+    skip = 2 if prog.get('fwdref') else 0
     if b != want:
-        item, bkey, bw, bg = blame(prog, exp, units(want), units(b))
+        item, bkey, bw, bg = blame(prog, exp, units(want[skip:]), units(b[skip:]))
     tail = '\n--- source\n%s' % (src if len(src) < 2500 else src[:1200] + '\n...\n' + src[-1200:])
     if item is not None:
         sub = []
@@ -1014,13 +1016,15 @@ def judge2(ctx, prog, name):
         viol.append(('select:' + bkey, '%s: construct %s: branches assembled %s, documented %s\n%s%s'
                      % (name, cond.kind_of(item), sorted(bg), sorted(bw), '\n'.join(sub[:40]), tail)))
     elif b != want:
-        uo, uw = units(b), units(want)
+        uo, uw = units(b[skip:]), units(want[skip:])
         i = 0
         while i < min(len(uo), len(uw)) and uo[i] == uw[i]:
             i += 1
         x = uw[i] if i < len(uw) else None
         y = uo[i] if i < len(uo) else None
-        if (x is not None and x < 0x1000) or (y is not None and y < 0x1000):
+        if uo == uw:
+            kind = 'forward-label-address'
+        elif (x is not None and x < 0x1000) or (y is not None and y < 0x1000):
             kind = 'variable-value'
         elif set(uo) == set(uw):
             kind = 'marker-order-or-multiplicity'
